@@ -2,6 +2,7 @@ package interp
 
 import (
 	"fmt"
+	"go/token"
 
 	"gosmt/sym"
 
@@ -92,4 +93,22 @@ func init() {
 	for _, n := range []string{"Add", "Done", "Wait"} {
 		reg("(*sync.WaitGroup)."+n, noop)
 	}
+}
+
+// gonum's assembly kernels (body-less in SSA)
+func init() {
+	reg("gonum.org/v1/gonum/internal/asm/f64.AxpyUnitaryTo", func(in *Interp, fn *ssa.Function, a []Value) (Value, *iPanic) {
+		// dst[i] = alpha*x[i] + y[i]
+		dst, alpha, x, y := a[0].(SliceV), a[1].(*sym.Term), a[2].(SliceV), a[3].(SliceV)
+		n := in.conInt(x.Len, "AxpyUnitaryTo length")
+		f64 := fn.Signature.Params().At(1).Type()
+		for i := 0; i < n; i++ {
+			xv := in.load(Pointer{O: x.O, Off: x.Off + 8*i}, f64).(*sym.Term)
+			yv := in.load(Pointer{O: y.O, Off: y.Off + 8*i}, f64).(*sym.Term)
+			p, _ := in.floatBinop(token.MUL, alpha, xv, 64)
+			s, _ := in.floatBinop(token.ADD, p.(*sym.Term), yv, 64)
+			in.store(Pointer{O: dst.O, Off: dst.Off + 8*i}, f64, s)
+		}
+		return nil, nil
+	})
 }
